@@ -271,3 +271,49 @@ def install(I):
     I.models['numpy.delete'] = np_delete
     I.models['numpy.subtract'] = np_subtract
     I.models['sorted'] = py_sorted
+
+
+def np_append(ctx, args, kwargs):
+    """np.append(a, b) for 1-D sequences (or axis=0 for rows): concatenation."""
+    I = ctx.I
+    a, b = args[0], args[1]
+    axis = kwargs.get('axis', args[2] if len(args) > 2 else None)
+    if isinstance(a, list) and not a:
+        a = None
+    if not (isinstance(a, SymSeq) and isinstance(b, SymSeq) and len(a.cols) == len(b.cols)):
+        raise OutOfSubset("np.append(%r, %r)" % (a, b))
+    if a.width is not None and axis != 0:
+        raise OutOfSubset("np.append of 2-D arrays without axis=0 (flattening)")
+    I.reg.assumptions_used.add("numpy: np.append(a, b[, axis=0]) is the concatenation a ++ b")
+    n = a.length + b.length
+    cols = [z3.Array(I.reg.fresh((a.name or 'a') + '_app'), INT, c.range()) for c in a.cols]
+    p = z3.Int(I.reg.fresh('p'))
+    for cn, ca, cb in zip(cols, a.cols, b.cols):
+        I.assume(z3.ForAll([p], z3.Implies(z3.And(p >= 0, p < n), z3.Select(cn, p) == z3.If(p < a.length, z3.Select(ca, p), z3.Select(cb, p - a.length))),
+                           patterns=[z3.Select(cn, p)]))
+    res = SymSeq(n, cols, a.width, 'ndarray', (a.name or 'a') + '_app')
+    res.appended = (a, b)
+    return res
+
+
+def py_max_seq(ctx, seq):
+    """max(seq) for a non-empty integer sequence."""
+    I = ctx.I
+    if not isinstance(seq, SymSeq) or seq.width is not None:
+        raise OutOfSubset("max of %r" % (seq,))
+    I.oblige("%s/safety/max-of-non-empty" % ctx.speckey, seq.length > 0, 'safety')
+    m = z3.Int(I.reg.fresh('max'))
+    j = z3.Int(I.reg.fresh('j'))
+    w = z3.Int(I.reg.fresh('argmax'))
+    I.assume(z3.ForAll([j], z3.Implies(z3.And(j >= 0, j < seq.length), z3.Select(seq.cols[0], j) <= m), patterns=[z3.Select(seq.cols[0], j)]))
+    I.assume(z3.And(w >= 0, w < seq.length, z3.Select(seq.cols[0], w) == m))
+    return Sym(m)
+
+
+_install_prev = install
+
+
+def install(I):
+    _install_prev(I)
+    I.models['numpy.append'] = np_append
+    I.models['max.seq'] = py_max_seq
